@@ -1104,7 +1104,7 @@ class Transaction:
         # count witnesses data
         for witness in self.witnesses:
             # add witnesses stack count
-            witnesses_count_bytes = chr(len(witness.stack)).encode()
+            witnesses_count_bytes = encode_varint(len(witness.stack))
             data += witnesses_count_bytes
             data += witness.to_bytes()
         wit_size = len(data)
